@@ -4,7 +4,7 @@ set -u
 ID=$1; WT=$2; N=$3; shift 3; EXTRA="$*"
 D=/verif/seeded/$ID-$N; mkdir -p $D
 CONF=$(bash /verif/tools/seed_confirm.sh $WT 2>&1); echo "$CONF" | tail -8
-cp $WT/SEEDED/* $D/ 2>/dev/null
+cp -r $WT/SEEDED/* $D/ 2>/dev/null
 SUITE=$(echo "$CONF" | grep -A1 "with change: test suite" | tail -1)
 RES=$(echo "$CONF" | tail -1)
 OUT=$(python3 /verif/tools/seedtest.py $D/patch.diff $ID $EXTRA 2>&1); echo "$OUT" | tail -14
